@@ -443,9 +443,24 @@ drain_harness!(w_compress_drain_r3_o3, 3, 3);
 #[kani::stub(dcore::flush_block, dcore::verif::mark_flush_block)]
 #[kani::stub(<[u16]>::fill, fill_model)]
 fn w_compress_tail() {
+    compress_tail(1, 2, 0)
+}
+
+#[kani::proof]
+#[kani::unwind(6)]
+#[kani::stub(dcore::compress_fast, dcore::verif::mark_compress_fast)]
+#[kani::stub(dcore::compress_normal, dcore::verif::mark_compress_normal)]
+#[kani::stub(dcore::compress_stored, dcore::verif::mark_compress_stored)]
+#[kani::stub(dcore::flush_block, dcore::verif::mark_flush_block)]
+#[kani::stub(<[u16]>::fill, fill_model)]
+fn w_compress_tail_zlib() {
+    compress_tail(2, 4, 1)
+}
+
+fn compress_tail(lo: u8, hi: u8, wb: i32) {
     let lvl: u8 = kani::any();
-    kani::assume(lvl >= 1 && lvl <= 2);
-    let mut c = CompressorOxide::new(dcore::create_comp_flags_from_zip_params(lvl as i32, 0, 0));
+    kani::assume(lvl >= lo && lvl <= hi);
+    let mut c = CompressorOxide::new(dcore::create_comp_flags_from_zip_params(lvl as i32, wb, 0));
     let mut s = c.verif_scalars();
     let dsz: usize = kani::any();
     kani::assume(dsz <= 32768);
